@@ -7,7 +7,7 @@ S="/tmp/$N"
 mkdir -p "$S"
 git -C /repo archive HEAD | tar -x -C "$S"
 cd "$S" && git init -q .
-suite() { PYTHONPATH="$S" /venv/bin/python -m pytest -q -p no:cacheprovider --timeout=900 --continue-on-collection-errors 2>/dev/null | grep -E "^(FAILED|ERROR)" | sed 's/ - .*//' | sort; }
+suite() { PYTHONPATH="$S" /venv/bin/python -m pytest -q -p no:cacheprovider --timeout=900 --continue-on-collection-errors 2>/dev/null | grep -E "^(FAILED|ERROR) [A-Za-z0-9_/]+\.py" | sed 's/ - .*//' | sort; }
 if [ "$1" = "--baseline" ]; then
   mkdir -p /tmp/mut; suite > /tmp/mut/clean_failed.txt; wc -l /tmp/mut/clean_failed.txt
 else
